@@ -419,7 +419,7 @@ fn c25_tb_structured_one_authenticator() {
 #[kani::proof]
 #[kani::unwind(6)]
 #[kani::stub(core::str::from_utf8, from_utf8_model)]
-fn c25_b_raw_encrypted_field_decrypt() {
+fn c25_tb_raw_encrypted_field_decrypt_same_pointers() {
     let mut body: [u8; 24] = kani::any();
     body[..4].copy_from_slice(&[0x00, 16, 0x00, 4]);
     let aad: [u8; 56] = kani::any();
@@ -432,6 +432,109 @@ fn c25_b_raw_encrypted_field_decrypt() {
     assert!(DEC_NONCE.0.load(Relaxed) == body.as_ptr() as usize + 4 && DEC_NONCE.1.load(Relaxed) == 16);
     assert!(DEC_CT.0.load(Relaxed) == body.as_ptr() as usize + 20 && DEC_CT.1.load(Relaxed) == 4);
     assert!(DEC_AAD.0.load(Relaxed) == aad.as_ptr() as usize && DEC_AAD.1.load(Relaxed) == 56);
+    match res {
+        Ok(fields) => assert!(cipher.decrypt_ok && fields.is_empty()),
+        Err(ParsingError::DecryptError(ExtensionField::InvalidNtsEncryptedField)) => assert!(!cipher.decrypt_ok),
+        Err(_) => panic!("unexpected error kind"),
+    }
+    kani::cover!(cipher.decrypt_ok, "success reachable");
+    kani::cover!(!cipher.decrypt_ok, "failure reachable");
+}
+// ---------------------------------------------------------------- C25 (quick): what the cipher is handed
+// Pointer-to-integer casts make CBMC's object encoding explode, so instead of recording slice
+// addresses this cipher records the LENGTHS it is handed and the bytes at harness-chosen (arbitrary)
+// positions; "for an arbitrary index the byte agrees" is "the slices are equal".
+static P_CALLS: AtomicU8 = AtomicU8::new(0);
+static P_LEN: [AtomicUsize; 3] = [AtomicUsize::new(0), AtomicUsize::new(0), AtomicUsize::new(0)];
+static P_IDX: [AtomicUsize; 3] = [AtomicUsize::new(0), AtomicUsize::new(0), AtomicUsize::new(0)];
+static P_BYTE: [AtomicU8; 3] = [AtomicU8::new(0), AtomicU8::new(0), AtomicU8::new(0)];
+struct ProbeCipher {
+    decrypt_ok: bool,
+}
+impl zeroize::ZeroizeOnDrop for ProbeCipher {}
+impl Cipher for ProbeCipher {
+    fn encrypt(&self, _b: &mut [u8], _l: usize, _a: &[u8]) -> std::io::Result<EncryptResult> {
+        Err(std::io::ErrorKind::Other.into())
+    }
+    fn decrypt(&self, nonce: &[u8], ciphertext: &[u8], aad: &[u8]) -> Result<Vec<u8>, crate::packet::DecryptError> {
+        P_CALLS.store(P_CALLS.load(Relaxed).saturating_add(1), Relaxed);
+        let parts: [&[u8]; 3] = [nonce, ciphertext, aad];
+        let mut k = 0;
+        while k < 3 {
+            P_LEN[k].store(parts[k].len(), Relaxed);
+            let i = P_IDX[k].load(Relaxed);
+            if i < parts[k].len() {
+                P_BYTE[k].store(parts[k][i], Relaxed);
+            }
+            k += 1;
+        }
+        if self.decrypt_ok {
+            Ok(Vec::new())
+        } else {
+            Err(crate::packet::DecryptError)
+        }
+    }
+    fn key_bytes(&self) -> &[u8] {
+        &[]
+    }
+}
+
+/// RawEncryptedField::{from_message_bytes, decrypt}: for an authenticator body with declared nonce
+/// length 16 and ciphertext length 4 (symbolic contents) the cipher is called exactly once with
+/// nonce == body[4..20], ciphertext == body[20..24] and associated data == the caller's slice
+/// (every byte, via arbitrary probe positions); a failing cipher yields
+/// Err(DecryptError(InvalidNtsEncryptedField)) and never any field; a succeeding one the decoded
+/// (here empty) plaintext. The call site (aad = everything before the field; nothing promoted to
+/// `authenticated` before success) is pinned by anchors.
+#[kani::proof]
+#[kani::unwind(6)]
+#[kani::stub(core::str::from_utf8, from_utf8_model)]
+fn c25_b_cipher_receives_declared_slices_then_fails() {
+    let mut body: [u8; 24] = kani::any();
+    body[..4].copy_from_slice(&[0x00, 16, 0x00, 4]);
+    let aad: [u8; 56] = kani::any();
+    let (i, j, k): (usize, usize, usize) = (kani::any(), kani::any(), kani::any());
+    kani::assume(i < 16 && j < 4 && k < 56);
+    P_IDX[0].store(i, Relaxed);
+    P_IDX[1].store(j, Relaxed);
+    P_IDX[2].store(k, Relaxed);
+    // the cipher sees its arguments before it decides; the failing outcome (what a tampered packet
+    // gets under A3) is the quick tier, the succeeding outcome (decoding the plaintext) is thorough
+    let cipher = ProbeCipher { decrypt_ok: false };
+    let enc = RawEncryptedField::from_message_bytes(&body).unwrap();
+    let res = enc.decrypt(&cipher, &aad, any_version());
+    assert!(P_CALLS.load(Relaxed) == 1);
+    assert!(P_LEN[0].load(Relaxed) == 16 && P_LEN[1].load(Relaxed) == 4 && P_LEN[2].load(Relaxed) == 56);
+    assert!(P_BYTE[0].load(Relaxed) == body[4 + i]);
+    assert!(P_BYTE[1].load(Relaxed) == body[20 + j]);
+    assert!(P_BYTE[2].load(Relaxed) == aad[k]);
+    match res {
+        Ok(fields) => assert!(cipher.decrypt_ok && fields.is_empty()),
+        Err(ParsingError::DecryptError(ExtensionField::InvalidNtsEncryptedField)) => assert!(!cipher.decrypt_ok),
+        Err(_) => panic!("unexpected error kind"),
+    }
+    kani::cover!(!cipher.decrypt_ok, "failure reachable");
+}
+#[kani::proof]
+#[kani::unwind(6)]
+#[kani::stub(core::str::from_utf8, from_utf8_model)]
+fn c25_tb_cipher_receives_declared_slices_any_outcome() {
+    let mut body: [u8; 24] = kani::any();
+    body[..4].copy_from_slice(&[0x00, 16, 0x00, 4]);
+    let aad: [u8; 56] = kani::any();
+    let (i, j, k): (usize, usize, usize) = (kani::any(), kani::any(), kani::any());
+    kani::assume(i < 16 && j < 4 && k < 56);
+    P_IDX[0].store(i, Relaxed);
+    P_IDX[1].store(j, Relaxed);
+    P_IDX[2].store(k, Relaxed);
+    let cipher = ProbeCipher { decrypt_ok: kani::any() };
+    let enc = RawEncryptedField::from_message_bytes(&body).unwrap();
+    let res = enc.decrypt(&cipher, &aad, any_version());
+    assert!(P_CALLS.load(Relaxed) == 1);
+    assert!(P_LEN[0].load(Relaxed) == 16 && P_LEN[1].load(Relaxed) == 4 && P_LEN[2].load(Relaxed) == 56);
+    assert!(P_BYTE[0].load(Relaxed) == body[4 + i]);
+    assert!(P_BYTE[1].load(Relaxed) == body[20 + j]);
+    assert!(P_BYTE[2].load(Relaxed) == aad[k]);
     match res {
         Ok(fields) => assert!(cipher.decrypt_ok && fields.is_empty()),
         Err(ParsingError::DecryptError(ExtensionField::InvalidNtsEncryptedField)) => assert!(!cipher.decrypt_ok),
